@@ -8,7 +8,60 @@ BASELINE_OFF = ("cmake -G Ninja -B /repo/_build -S /repo >/dev/null && cmake --b
                 "ctest --test-dir /repo/_build -j8 --timeout 900")
 
 # id -> dict(level, text, note, technique)
+# properties whose check is built, validated (3 seeds silent, mutants caught) and claimed
+READY = ["C02", "C03", "C07", "C08", "C09", "C10", "C12"]
+
 CHECKS = {
+    "C02": dict(
+        level="exploration",
+        text="Randomised histories on the real TCP and UDP engines (8-22 concurrently driven sessions per transport; every close origin: app close, peer FIN, "
+             "RST, refused, unresolvable, connect/handshake/write-stall timers, TLS failure, idle GC, back-pressure, stop(); observers and user data "
+             "registered/unregistered from actor threads and from inside callbacks; restarts) watched by an online per-session-id state machine fed "
+             "from every callback on one global atomic sequence: exactly one close per seen id, nothing before announce or after close, ids never "
+             "reused, fan-out order global callback -> observers in registration order -> user-data cleanup, sessions gauge never under-counts and "
+             "returns to zero. plain + tsan (quick), + asan (thorough). Held on the executions produced; each close origin must have been observed or the run is inconclusive.",
+        note="Trusts the raw loopback peers and the kernel's TCP/UDP behaviour on loopback; 'seen' = returned by connect()/connectViaListener() or carried by an accept/connect callback; "
+             "UDP back-pressure close is unreachable on loopback (not required).",
+        technique="runtime monitoring: online per-id state machine over callback/observer/cleanup events + stats conservation, under TSan/ASan"),
+    "C03": dict(
+        level="exploration",
+        text="Transport driven through the befriended engine seam by a scripted engine (exact arrival chunking and close placement) with a reader thread "
+             "(seeded buffer lengths/timeouts), a mode switcher (Async/Sync/Disabled), local closes and a late caller; condvar pre-park delays injected by a "
+             "pthread_cond_* interposer; plus an end-to-end variant on the real TCP engine with a raw peer writing data+FIN back to back. An offline checker "
+             "that shares no code with iora attributes every observed byte to its stream position and flags duplicates, loss without a justifying overflow/"
+             "Disabled interval, early PeerClosed, misordered flush, overlapping callbacks, non-sticky or late overflow. Thorough tier enumerates a 129,024-history small scope completely.",
+        note="One receiveSync caller per session (documented contract); events are ordered only when one ended before the other began on the global sequence, overlapping events accept either order.",
+        technique="runtime monitoring: position-encoded stream + offline history checker over scripted-engine and real-TCP executions, condvar delay injection, TSan/ASan"),
+    "C07": dict(
+        level="fault_enumeration",
+        text="A pruned 511-cell configuration matrix (verify on/off x trust anchor x server certificate x client certificate x protocol ceiling x peer kind x entry point "
+             "{Transport client/server, HttpClient, HttpServer} x target kind) is executed for real against an independent libssl / plaintext / garbage peer through a "
+             "recording relay; the expected outcome of each cell (must-reject / must-accept / either) is computed from its coordinates alone; admission is decided by "
+             "application data exchanged, the relay scans for clear-text tokens, the peer reports the negotiated version. Quick runs a seeded covering subset (every coordinate "
+             "value, every reject class, the floor cells) on plain+asan; thorough runs the whole matrix on plain+asan+tsan (exhaustive over the matrix).",
+        note="System OpenSSL 3.0.x; TLS 1.0/1.1 are only negotiable at security level 0, so low-ceiling cells run at @SECLEVEL=0 and reference libssl-vs-libssl cells must prove "
+             "negotiability for the floor cells to count. Revocation, name constraints, cipher strength are out of scope.",
+        technique="runtime monitoring over an enumerated configuration matrix: differential oracle from cell coordinates, independent libssl peer, wire-capturing relay"),
+    "C08": dict(
+        level="exploration",
+        text="Seeded scenarios on the real TimingWheel (1-3 levels x 4/8/16 slots x 1-4 ms tick, started mode), TimerService and TimerServicePool: 2-6 threads issue "
+             "schedule/cancel/reschedule/periodic with boundary-biased delays (zero, sub-tick, shared bucket, level and cascade boundaries, at and beyond the wheel span) against "
+             "firing; handlers are quick, slow (making the tick thread lag), throwing, scheduling and cancelling; stop()/drain() at quiescence or racing the schedulers with a delay "
+             "injected after the scheduler's clock read. Every call/return and the first/last statement of every handler is stamped on the un-shimmed monotonic clock; an offline "
+             "checker applies: never early (minus one tick for the wheel), one-shot at most once, k-th periodic firing not before k intervals, no start after a successful cancel/"
+             "reschedule returned, cancel false => ran exactly once, never dropped, nothing after stop/drain returned, refused after stop, no API call stuck.",
+        note="A timer's deadline is bounded below by (schedule call time + delay), so earliness is judged conservatively; timers handed to a user dispatcher are out of scope. "
+             "One open known finding (periodic cancel vs already-collected firings).",
+        technique="runtime monitoring: client-boundary timer history + offline checker, clock-read and condvar delay injection, TSan"),
+    "C09": dict(
+        level="exploration",
+        text="Seeded scenarios on the real ThreadPool: 1-16 submitters released by a spin barrier (tight one-submission-per-submitter bursts, streams, streams racing stop(), "
+             "submissions around the idle-exit instant) against pools (min,max) in {(0,1),(1,2),(2,8),(4,4),(1,1),(0,4),(1,3)}, idle timeouts 1-500 ms, queue sizes 1-1024, task kinds "
+             "quick/sleep/throw/nested-submit/latched, enqueue/tryEnqueue/enqueueWithResult, shutdown by destructor, stop(), drain()+stop(), stop() racing submitters. Each task "
+             "counts its own executions and stamps entry/exit; the checker requires exactly-once for every accepted task, ready futures with the right value/exception, justified "
+             "refusals only, no task start/run after shutdown returned, and an exact concurrently-running-workers high-water mark <= max (plus sampled getTotalThreadCount()).",
+        note="Task bodies are bounded; DETACHED shutdown mode excluded (documented as leaking); the pool object is never destroyed while a submitter may still call into it.",
+        technique="runtime monitoring: per-task counters + shutdown fence + thread high-water mark, spin-barrier bursts, condvar delay injection, TSan"),
     "C10": dict(
         level="exploration",
         text="Seeded multi-threaded scenarios on the real BlockingQueue (1-6 producers/consumers, blocking/timed/non-blocking mixes, "
@@ -19,8 +72,16 @@ CHECKS = {
              "Held on the executions produced, nothing more.",
         note="Trusts: TSan's happens-before model; that a caller parked 6 s after close() returned with the queue closed is stuck for good; "
              "size() of the rings sampled only from producer/consumer threads.",
-        technique="runtime monitoring: history checker over unique items + stuck-caller detector + ThreadSanitizer, condvar pre-park delay injection",
-        design_ref="DESIGN.md §3 C10"),
+        technique="runtime monitoring: history checker over unique items + stuck-caller detector + ThreadSanitizer, condvar pre-park delay injection"),
+    "C12": dict(
+        level="exploration",
+        text="Seeded operation histories (set, TTL set, batch, remove, prefix remove, clear, expireAt, persist, compaction, clean close/reopen) on the real KVStore with a frozen/"
+             "advanced wall clock (system_clock replaced in the harness, steady clock offset independently so eviction can be made to run or not); after EVERY step every read API "
+             "(get, exists, keys, prefix scan, size, getBatch, ttl) is compared with a reference map with absolute expiry evaluated at the read instant, probing just before / exactly "
+             "at / just after each expiry and across restarts. A concurrent mode races writers, readers and an admin thread (compaction, clock jumps) against the eviction worker with "
+             "per-key linearizability checking (reads overlapping a write or an expiry instant accept either side). plain+asan histories, tsan for the concurrent part.",
+        note="Convention checked: expired iff now >= expiry (what every read path in kvstore.hpp implements); model resolution 1 ms; wall-clock jumps inside a single API call and 100 MiB values are out of reach.",
+        technique="runtime monitoring: reference-model differential after every step under a controlled wall clock + per-key linearizability checking, ASan/TSan"),
 }
 
 NOT_YET = {}
@@ -32,7 +93,7 @@ def main():
     for p in props:
         pid = p["id"]
         c = CHECKS.get(pid)
-        if c and os.path.exists(os.path.join(VERIF, "lib", "props", pid.lower() + ".py")):
+        if c and pid in READY and os.path.exists(os.path.join(VERIF, "lib", "props", pid.lower() + ".py")):
             checks.append(dict(
                 property_id=pid,
                 quick_cmd=f"./check {pid} --tier quick",
